@@ -223,7 +223,7 @@ def main():
         if harnesses:
             kfut = ex.submit(safe, kanirun.run_cached, a.repo, harnesses, pid,
                              cfg.get('kani_timeout', 1500) * (3 if tier == 'thorough' else 1),
-                             2 if tier == 'thorough' else cfg.get('kani_jobs', 6))
+                             1 if tier == 'thorough' else cfg.get('kani_jobs', 6))
         for kind, u, f in futs:
             r = f.result()
             if isinstance(r, Exception):
